@@ -393,5 +393,43 @@ def _anc(repo, n, stop):
         q = repo.parent(q)
 
 
+def r19_7(ctx):
+    """R19.7 (a) the old name of a rename line ends at the first *whitespace* (str.split() with the caller's separator, None =
+    any whitespace): a fixed delimiter would miss TAB-separated files; (b) the IDF root is normalised with os.path.abspath
+    unconditionally, like the project roots it is compared with; (c) a CMakeLists.txt marks a project root by a `project(`
+    call whatever its argument looks like (`project(${ProjectId})`, `project("name")`)."""
+    from .common import expand_locals
+    repo = ctx.repo
+    f = repo.func(f"{MOD}:extract_lhs_from_file")
+    ctx.analysed(f.qual)
+    sep = f.node.args.args[1].arg if len(f.node.args.args) > 1 else "sep"
+    adds = [n for n in ast.walk(f.node) if isinstance(n, ast.Call) and isinstance(n.func, ast.Attribute) and n.func.attr == "add" and n.args]
+    construct = "extract_lhs_from_file/the name ends at the caller's separator (None = any whitespace)"
+    if not adds:
+        raise AnchorError("extract_lhs_from_file: no ret.add(..)")
+    t = expand_locals(f.node, adds[0].args[0])
+    (ctx.ok(construct, f.loc(adds[0])) if f".split({sep})[0]" in t else
+     ctx.bad(construct, f"the name is taken as `{t}`: with a fixed delimiter a TAB-separated rename line yields the whole line as the old name", f.loc(adds[0])))
+    p = repo.func(f"{MOD}:_prepare_deprecated_options")
+    ctx.analysed(p.qual)
+    asg = [n for n in ast.walk(p.node) if isinstance(n, ast.Assign) and ast.unparse(n.targets[0]) == "abs_idf_path"]
+    construct = "_prepare_deprecated_options/IDF_PATH is normalised unconditionally"
+    if not asg:
+        raise AnchorError("_prepare_deprecated_options: abs_idf_path not found")
+    (ctx.ok(construct, p.loc(asg[0])) if isinstance(asg[0].value, ast.Call) and ast.unparse(asg[0].value.func) == "os.path.abspath" else
+     ctx.bad(construct, f"`{ast.unparse(asg[0].value)}`: an absolute but un-normalised IDF_PATH (trailing slash, `..`) no longer equals the normalised project root it is "
+             "compared with, and the IDF tree is treated as a user project", p.loc(asg[0])))
+    r = repo.func(f"{MOD}:_is_project_root")
+    ctx.analysed(r.qual)
+    pats = [c for n in ast.walk(r.node) if isinstance(n, ast.Call) and ast.unparse(n.func).startswith("re.") for c in n.args[:1] if isinstance(c, ast.Constant) and isinstance(c.value, str)]
+    construct = "_is_project_root/any `project(` call marks a project root"
+    if not pats:
+        raise AnchorError("_is_project_root: pattern not found")
+    pat = pats[0].value
+    tail = pat.split("\\(", 1)[1] if "\\(" in pat else None
+    (ctx.ok(construct, r.loc(pats[0]), pattern=pat) if tail == "" else
+     ctx.bad(construct, f"the pattern `{pat}` demands something after `project(`: calls with a variable or quoted argument are not recognised and the project is attributed "
+             "to the enclosing one", r.loc(pats[0])))
+
 def rules():
-    return [("R19.6", r19_6, 1), ("R19.1", r19_1, 3), ("R19.2", r19_2, 7), ("R19.3", r19_3, 4), ("R19.4", r19_4, 3), ("R19.5", r19_5, 8)]
+    return [("R19.7", r19_7, 3), ("R19.6", r19_6, 1), ("R19.1", r19_1, 3), ("R19.2", r19_2, 7), ("R19.3", r19_3, 4), ("R19.4", r19_4, 3), ("R19.5", r19_5, 8)]
